@@ -55,6 +55,35 @@ mod cmap_bounded {
         if let Some(e) = first { panic!("first failure:\n{}", e); }
     }
 
+    // Universe C: LINEAR runs — codes c0..c0+len mapped to the consecutive characters u0..u0+len (what a range
+    // form `<lo> <hi> <dst>` can abbreviate), for every start code in {0, 1, 0xFD, 0xFE, 0xFF, 0x1FD, 0xFFF0},
+    // every length 1..=6 and every first character in {U+0041, U+00FC..U+0101, U+01FE, U+D7FD, U+FFFB, U+1D11E}
+    // (runs crossing an xxFF -> (xx+1)00 boundary of the destination, the surrogate gap and the top of the BMP),
+    // each also with one code of the run removed (a gap): 7 * 6 * 11 * (1 + len) maps.
+    #[test]
+    fn universe_c_linear_runs() {
+        let starts = [0u16, 1, 0xFD, 0xFE, 0xFF, 0x1FD, 0xFFF0];
+        let firsts = [0x41u32, 0xFC, 0xFD, 0xFE, 0xFF, 0x100, 0x101, 0x1FE, 0xD7FD, 0xFFFB, 0x1D11E];
+        let (mut n, mut bad, mut first) = (0, 0, None);
+        for &c0 in &starts { for len in 1..=6u32 { for &u0 in &firsts {
+            let mut strs: Vec<(u16, String)> = Vec::new();
+            let mut u = u0;
+            for i in 0..len {
+                while char::from_u32(u).is_none() { u += 1; }
+                strs.push((c0 + i as u16, char::from_u32(u).unwrap().to_string()));
+                u += 1;
+            }
+            for skip in 0..=len as usize {
+                let mut m: BTreeMap<u16, &str> = BTreeMap::new();
+                for (i, (c, s)) in strs.iter().enumerate() { if i + 1 != skip { m.insert(*c, s.as_str()); } }
+                n += 1;
+                if let Err(e) = check(&m) { bad += 1; first.get_or_insert(e); }
+            }
+        } } }
+        println!("universe C: {n} maps, {bad} do not read back");
+        if let Some(e) = first { panic!("first failure:\n{}", e); }
+    }
+
     // Reader against an independent reading of ISO 32000-1 9.10.3 on texts from a small conformant generator:
     // sections drawn from the list below in every order of every subset of size <= 3 (1 + 5 + 20 + 60 = 86 texts).
     #[test]
